@@ -134,7 +134,7 @@ def gen_inputs(meta, which_prop, seed, tier, only_keys=None, per_fn=None):
                     if not integer_spec.pre_py(p, env):
                         ok = False
                         break
-                except KeyError:
+                except Exception:
                     ok = False
                     break
             if not ok:
@@ -159,6 +159,9 @@ def hexs(v):
 # ------------------------------------------------------------------------------------------
 # running harness + driver
 # ------------------------------------------------------------------------------------------
+UB_NOTES = set()
+
+
 def run_harness(binp, lines, timeout=1800):
     """returns (output_lines, crash_info or None).  A crash (sanitizer abort, signal) is bisected to one line."""
     env = dict(os.environ)
@@ -168,6 +171,8 @@ def run_harness(binp, lines, timeout=1800):
                        timeout=timeout, env=env)
     out = p.stdout.split("\n")
     out = [l for l in out if l]
+    for m in re.finditer(r"^(\S+:\d+:\d+: runtime error: .*)$", p.stderr, re.M):
+        UB_NOTES.add(m.group(1)[:300])
     if p.returncode == 0:
         return out, None
     # crashed: the first line without output is the culprit (output is in input order)
@@ -195,16 +200,19 @@ def run_driver(mode, lines, timeout=1800):
 # the check
 # ------------------------------------------------------------------------------------------
 def failing_theorems(build_output):
-    """map `error: …IntegerThms.lean:LINE` to theorem names."""
-    path = os.path.join(common.LEAN_DIR, THMS)
-    with open(path) as fh:
-        src = fh.read().split("\n")
+    """map `error: …IntegerThmsNN.lean:LINE` to theorem names."""
+    srcs = {}
     names = {}
     other = []
     for f, ln, col, msg in common.lean_errors(build_output):
-        if not f.endswith("IntegerThms.lean"):
+        if not re.search(r"IntegerThms\d\d\.lean$", f):
             other.append((f, ln, msg))
             continue
+        base = os.path.basename(f)
+        if base not in srcs:
+            with open(os.path.join(common.LEAN_DIR, "GivaroModel", "Generated", base)) as fh:
+                srcs[base] = fh.read().split("\n")
+        src = srcs[base]
         i = ln
         while i > 0 and not src[i - 1].startswith("theorem "):
             i -= 1
@@ -236,8 +244,10 @@ def run(prop, tier, seed, replay=None):
     keys = {f["key"] for f in mine}
 
     # 2. Lean: build the theorems and the driver
-    ok, out, t_lean = common.lake_build(["GivaroModel.Generated.IntegerThms", "driver"])
+    chunks = ["GivaroModel.Generated.IntegerThms%02d" % i for i in range(meta["nchunk"])]
+    ok, out, t_lean = common.lake_build(chunks + ["driver"])
     failing, other = failing_theorems(out)
+    bad_chunks = {int(m.group(1)) for m in re.finditer(r"IntegerThms(\d\d)\.lean:\d+:\d+", out)} if not ok else set()
     if not ok and not failing:
         # the model or the spec file itself does not elaborate: nothing is proved
         V.violation("lean_build", {"obligation": "lake build GivaroModel.Generated.IntegerThms driver", "output": out[-4000:]}, no_failing_input=True)
@@ -249,16 +259,28 @@ def run(prop, tier, seed, replay=None):
 
     # 3. audit
     forb = common.grep_forbidden()
-    thm_names = ["Givaro.Gen.%s_exact" % f["key"] for f in mine if ("%s_exact" % f["key"]) not in failing]
     ax_bad = {}
-    if ok:
-        axs, missing, txt = common.print_axioms("GivaroModel.Generated.IntegerThms", thm_names)
-        for n, a in axs.items():
-            extra = a - common.ALLOWED_AXIOMS
-            if extra:
-                ax_bad[n] = sorted(extra)
-        for n in missing:
-            ax_bad[n] = ["<not found by #print axioms>"]
+    audited = 0
+    by_chunk = {}
+    for f in mine:
+        ci = meta["thm_chunk"].get(f["key"])
+        if ci is None or ci in bad_chunks:
+            continue   # a chunk with a failing theorem has no compiled module; its theorems are reported below
+        by_chunk.setdefault(ci, []).append("Givaro.Gen.%s_exact" % f["key"])
+    if os.path.exists(common.driver_path()) or ok:
+        import concurrent.futures as cf
+        def audit(item):
+            ci, names = item
+            return common.print_axioms("GivaroModel.Generated.IntegerThms%02d" % ci, names)
+        with cf.ThreadPoolExecutor(8) as ex:
+            for axs, missing, txt in ex.map(audit, sorted(by_chunk.items())):
+                audited += len(axs)
+                for n, a in axs.items():
+                    extra = a - common.ALLOWED_AXIOMS
+                    if extra:
+                        ax_bad[n] = sorted(extra)
+                for n in missing:
+                    ax_bad[n] = ["<not found by #print axioms>"]
     if forb:
         V.violation("audit_forbidden", {"obligation": "no sorry/admit/native_decide/... in the Lean library", "hits": forb[:50]}, no_failing_input=True)
     if ax_bad:
@@ -274,14 +296,27 @@ def run(prop, tier, seed, replay=None):
         lost = sorted(want - have)
 
     # 5. correspondence
-    binp = common.build_harness("h_integer", "S", extra=["-I", GEN], extra_srcs=[os.path.join(GEN, "integer_calls.inc")] and [])
+    # two builds of the real code: S = -O1 with ASan/UBSan, R = the repository's own flags (-O2 -march=native);
+    # undefined behaviour can compile differently in the two (it did: absCompare(x, INT32_MIN))
+    import concurrent.futures as cf
+    with open(os.path.join(GEN, "integer_calls.inc"), "rb") as fh:
+        stub_hash = common.sha(fh.read())
+    with cf.ThreadPoolExecutor(2) as ex:
+        futs = {c: ex.submit(common.build_harness, "h_integer", c, ["-I", GEN, "-DSTUBS_" + stub_hash]) for c in ("S", "R")}
+        bins = {c: f.result() for c, f in futs.items()}
+    binp = bins["S"]
     lines, stats = gen_inputs(meta, prop, seed, tier)
     if replay:
         with open(replay) as fh:
             rp = json.load(fh)
-        lines = [l.split(" = ")[0] for l in rp.get("lines", [])] or lines
-    hout, crash = run_harness(binp, lines)
+        lines = [l.split(" = ")[0] for l in rp.get("lines", []) if l] or lines
+    hout, crash = run_harness(bins["S"], lines)
+    hout_r, crash_r = run_harness(bins["R"], lines)
+    crash = crash or crash_r
+    n_S = len(hout)
+    hout = hout + [l for l in hout_r]
     verdicts = run_driver("integer", hout)
+    cfg_of = ["S"] * n_S + ["R"] * len(hout_r)
     n_ok = n_pre = 0
     diffs = []
     bad = []
@@ -360,6 +395,9 @@ def run(prop, tier, seed, replay=None):
                 "non-trivial = some operand outside {0,1}; distinct = distinct (overload, operand tuple)",
         "samples": sample,
         "traces_validated_against_impl": n_ok,
+        "build_configurations": {"S": "g++ -O1 -fsanitize=address,undefined", "R": "g++ -O2 -march=native (the repository's flags)"},
+        "axiom_audit": {"theorems_audited": audited, "offending": ax_bad},
+        "undefined_behaviour_notes": sorted(UB_NOTES)[:40],
         "precondition_rejected": n_pre,
         "overloads_exercised": len([k for k, n in stats.items() if n > 0]),
         "overloads_translated": len(meta["functions"]),
